@@ -1,6 +1,7 @@
 package main
 
 import (
+	"go/types"
 	"fmt"
 	"go/token"
 	"strings"
@@ -162,6 +163,68 @@ func checkC09(p *Program, r *Report) {
 			}
 		}
 		okLIFO, why := false, "loop has no integer induction variable"
+		if phi == nil && local != nil {
+			// the other spelling of last-in-first-out: pop the last element while the list is not empty
+			lenMinus1 := func(v ssa.Value, of ssa.Value) bool {
+				bo, ok := v.(*ssa.BinOp)
+				if !ok || bo.Op != token.SUB {
+					return false
+				}
+				c, ok := bo.Y.(*ssa.Const)
+				if !ok || c.Int64() != 1 {
+					return false
+				}
+				lc, ok := bo.X.(*ssa.Call)
+				if !ok {
+					return false
+				}
+				bi, ok := lc.Call.Value.(*ssa.Builtin)
+				return ok && bi.Name() == "len" && lc.Call.Args[0] == of
+			}
+			for _, in := range l.Header.Instrs {
+				sp, ok := in.(*ssa.Phi)
+				if !ok || !types.Identical(sp.Type(), local.Type()) {
+					continue
+				}
+				fromLocal, shrinks := false, false
+				for _, e := range sp.Edges {
+					if e == local {
+						fromLocal = true
+					} else if sl, ok := e.(*ssa.Slice); ok && sl.X == ssa.Value(sp) && sl.Low == nil && sl.High != nil && lenMinus1(sl.High, sp) {
+						shrinks = true
+					}
+				}
+				nonEmpty := false
+				if iff, ok := l.Header.Instrs[len(l.Header.Instrs)-1].(*ssa.If); ok {
+					if bo, ok := iff.Cond.(*ssa.BinOp); ok && (bo.Op == token.GTR || bo.Op == token.NEQ) && isZeroConst(bo.Y) {
+						if lc, ok := bo.X.(*ssa.Call); ok {
+							if bi, ok := lc.Call.Value.(*ssa.Builtin); ok && bi.Name() == "len" && lc.Call.Args[0] == ssa.Value(sp) {
+								nonEmpty = true
+							}
+						}
+					}
+				}
+				runsLast := false
+				for b := range l.Body {
+					for _, in2 := range b.Instrs {
+						c, ok := in2.(*ssa.Call)
+						if !ok || m.calleeOnBase(c, rbase) == nil || len(c.Call.Args) < 2 {
+							continue
+						}
+						if u, ok := c.Call.Args[1].(*ssa.UnOp); ok {
+							if ia, ok := u.X.(*ssa.IndexAddr); ok && ia.X == ssa.Value(sp) && lenMinus1(ia.Index, sp) {
+								runsLast = true
+							}
+						}
+					}
+				}
+				if fromLocal && shrinks && nonEmpty && runsLast {
+					okLIFO = true
+				} else {
+					why = "the loop over the saved list neither walks an index down from len-1 nor pops its last element while it is not empty"
+				}
+			}
+		}
 		if phi != nil {
 			initOK, stepOK := false, false
 			for _, e := range phi.Edges {
